@@ -60,11 +60,16 @@ struct CaseSpec
     int pre = 0;           // earlier encode call on the SAME encoder: 0 none; same context, other version: 1 [small data], 2 [small status], 3 [segmenting data];
                            // same version, [small data]: 4 larger max, 5 smaller max, 6 same context, 7 minimum above this call's maximum;
                            // same context, call aborted by the packet source: 8 after [small data], 9 after [segmenting data, small data]; 10 same context, empty batch
+    int longKind = 0;      // 200..202: the batch is GENERATED (70000 one-byte packets, see fillLong) and written as "long=<kind>" in case strings
     std::vector<PSpec> b;
 };
 
+static void fillLong(CaseSpec& c);
+
 static std::string show(const CaseSpec& c)
 {
+    if (c.longKind)
+        return fmt("mn=%zu;mx=%zu;dev=%x;str=%x;ver=%u;jk=%d;api=%d;pre=%d;long=%d;b=", c.mn, c.mx, c.dev, c.str, c.ver, c.junk, c.api, c.pre, c.longKind);
     std::string s = fmt("mn=%zu;mx=%zu;dev=%x;str=%x;ver=%u;jk=%d;api=%d;pre=%d;b=", c.mn, c.mx, c.dev, c.str, c.ver, c.junk, c.api, c.pre);
     for (size_t i = 0; i < c.b.size(); ++i)
     {
@@ -87,6 +92,12 @@ static CaseSpec parseCase(const std::string& s)
     c.junk = atoi(m["jk"].c_str());
     c.api = atoi(m["api"].c_str());
     c.pre = atoi(m["pre"].c_str());
+    if (m.count("long"))
+    {
+        c.longKind = atoi(m["long"].c_str());
+        fillLong(c);
+        return c;
+    }
     for (auto& ps : mc::split(m["b"], '|'))
     {
         auto f = mc::split(ps, ',');
@@ -652,6 +663,20 @@ static PSpec gen(uint8_t mt, uint32_t len, int idx)
     return p;
 }
 
+static void fillLong(CaseSpec& c)
+{
+    const size_t n = 70000;
+    PSpec p0 = gen(1, 1, 0);
+    c.b.assign(n, p0);
+    for (size_t i = 0; i < n; ++i)
+    {
+        c.b[i].ts = 0x100000 + i;
+        c.b[i].pat = (uint8_t) i;
+        if (c.longKind == 201 && i % 1000 == 999)
+            c.b[i].mt = 3;   // a type change now and then
+    }
+}
+
 static Domain makeDomain(const std::string& prop, bool thorough)
 {
     Domain d;
@@ -726,6 +751,10 @@ static Domain makeDomain(const std::string& prop, bool thorough)
     if (prop != "C07")   // C07's domain ends at max = 65535 + 24
         for (int k = 100; k < 104; ++k)
             d.tasks.push_back({'D', 0, 0, 0, k});
+    // very long batches (70000 packets in one call: one per frame, so that the frame counter wraps inside the call, and ~90 per frame) and
+    // batches whose neighbours are IDENTICAL packets (same timestamp, ids, bytes: still one message each)
+    for (int k = 200; k < 206; ++k)
+        d.tasks.push_back({'D', 0, 0, 0, k});
     // single sweep over every length (thorough), empty batch
     if (thorough)
         for (int k = 0; k < 32; ++k)
@@ -907,6 +936,32 @@ static void runTask(W& w, const std::string& prop, const Domain& d, const Task& 
                     exec();
                     if (l2 == l && l != 65535)
                         break;
+                }
+            }
+        }
+        else if (k >= 200)
+        {
+            c = CaseSpec();
+            if (k < 203)
+            {
+                c.mn = k == 202 ? 64 : 0;
+                c.mx = k == 200 ? 25 : 1500;
+                c.longKind = k;
+                fillLong(c);
+                exec();
+            }
+            else
+            {
+                // identical neighbours: the same packet twice, three times, and twice with another one in between
+                c.mn = k == 205 ? 64 : 0; c.mx = k == 203 ? 40 : 100;
+                PSpec a = gen(1, 5, 0), b = gen(1, 6, 1), z = gen(3, 5, 2);
+                for (auto batch : std::vector<std::vector<PSpec>>{{a, a}, {a, a, a}, {a, b, a}, {b, a, a}, {z, z}, {a, z, z, a}, {a, a, z, z}})
+                {
+                    c.b = batch;
+                    exec();
+                    for (auto& p : c.b)
+                        p.len = 40;   // ... segmented ones
+                    exec();
                 }
             }
         }
